@@ -31,6 +31,9 @@ Round 7: clause T (a cache file that does not import is regenerated) also here; 
 module-level helpers called by name; module-level string constants are constant module text.
 Round 8: the protocol is read as python -O reads it; a generated part the cookie covers is written
 on every path that writes the module.
+Round 9: a function is installed from the re-loaded module under the same conditions as after
+generating; no class-level table keeps modules that came from load_module(); no installed wrapper
+looks the generated function up in such a module at call time.
 """
 import ast
 import builtins
